@@ -142,6 +142,7 @@ impl<T: HCfg> World<T> {
                     cfg.get("glitch_k").and_then(|v| v.as_u64()),
                 ) {
                     game.glitch = Some((f as i32, k as u32));
+                    game.glitch_transient = cfg.get("glitch_transient").and_then(|v| v.as_bool()).unwrap_or(false);
                 }
                 peers.push(Peer {
                     sess: Sess::Sync(sess),
